@@ -89,11 +89,18 @@ class Sim(object):
         self.line_mute = False
         self.pollers = 0
         self.poisoned = False
+        self.last_progress_step = 0   # API call, bytes consumed, frame seen
 
     # ------------------------------------------------------------ logging
+    PROGRESS_KINDS = frozenset(['call', 'ret', 'read', 'srv-frame',
+                                'thread-start', 'thread-end', 'connect',
+                                'listener'])
+
     def log(self, kind, detail=None):
         """Record an I/O- or API-level event in the history; returns seq."""
         self.seq += 1
+        if kind in self.PROGRESS_KINDS:
+            self.last_progress_step = self.steps
         cur = self.current
         tid = cur.tid if cur is not None and not self.in_sched else -1
         self.history.append((self.seq, tid, kind, detail, self.now))
